@@ -11,7 +11,7 @@ from ..core import Batch, cN, cZ, cbool, clist, cnat, copt, cpair
 ID = "C08"
 LEVEL = "proof"
 PROP_FILE = "Properties/C08.v"
-PROOF_FILES = ["Proofs/BinarizeProofs.v", "Model/Binarize.v", "Model/Poly.v", "Proofs/PolyProofs.v", "Proofs/PolyInvProofs.v", "Proofs/Meta2Proofs.v", "Proofs/SpfsFinal.v", "Proofs/UspfsFinal.v"]
+PROOF_FILES = ["Proofs/PolyBoundProofs.v", "Proofs/FiniteCostProofs.v", "Proofs/BinarizeProofs.v", "Model/Binarize.v", "Model/Poly.v", "Proofs/PolyProofs.v", "Proofs/PolyInvProofs.v", "Proofs/Meta2Proofs.v", "Proofs/SpfsFinal.v", "Proofs/UspfsFinal.v"]
 TRUSTED = [
     "model Model/Binarize.v of utils/trees.py (is_binary, graft, arrange_leaves, binarize) and "
     "ReconciliationInput.binarize: already-resolved child subtrees are atoms; the literal variant with an explicit `ignore` "
@@ -921,10 +921,7 @@ LEVEL_TEXT = ("Machine-checked theorems on the model of graft/arrange_leaves/bin
               "(value, refinement-pair index of every returned solution, ANY).")
 LEVEL_NOTE = ("Trusted: Coq kernel; the hand-written model (differential-tested, not proved); that equal ete3 topology ids imply "
               "equal leaf-name sets (no md5 collision) and that leaf names are distinct. "
-              "The clause 'the extended solvers return the optimum over all binary refinements' is NOT a theorem "
-              "(ext_optimum_refinements_statement is an open goal): it rests only on the end-to-end batch `extended_solvers`, "
-              "whose Coq side merely folds a minimum over costs that the implementation's own solver produced on the harness's "
-              "independent refinement pairs, plus the harness check that every returned solution refers to a binary refinement "
-              "with the original names, colours and leaf data. "
+              "The end-to-end clause is a theorem about Model/Poly.v (C08_ext_optimum_*, C08_returned_solutions_optimal_over_all_refinements_*; species-tree names pairwise distinct, "
+              "coherent costs); the loop model is tied to the code by the batch `poly_model`, the batch `extended_solvers` re-derives the optimum from the independent refinement pairs. "
               "Trees with single-child nodes are outside the theorems' hypotheses (binarize collapses such a node onto its child "
               "and overwrites the child's name, a leaf included); the model mirrors that behaviour and is compared on such trees too.")
